@@ -197,6 +197,7 @@ def run_property(pid, tier="quick", seed=0, only=None, workers=None):
         with ctxm.Pool(workers) as pool:
             results = pool.map(_run_case_sym, [(pid, c.cid) for c in sym_cases], chunksize=1)
     report = Report(pid, tier, seed, mod, cases, results, t0)
+    report.partial = bool(only)
     # extra (non-symbolic) steps of the property: finite table checks, bounded stand-ins
     extra = getattr(mod, "EXTRA", None)
     if extra:
@@ -481,7 +482,9 @@ class Report:
             "wall_s": round(time.time() - self.t0, 2), "violations": len(self.violations),
         }
         os.makedirs(EVID, exist_ok=True)
-        with open(os.path.join(EVID, "%s.json" % pid), "w", encoding="utf-8") as fh:
+        # a run restricted with --only covers part of the property: its record does not replace the evidence of a full run
+        evname = "%s.partial.json" % pid if getattr(self, "partial", False) else "%s.json" % pid
+        with open(os.path.join(EVID, evname), "w", encoding="utf-8") as fh:
             json.dump(ev, fh, indent=1, ensure_ascii=False)
         # ---- verdict
         printed = set()
